@@ -215,6 +215,20 @@ type explorer struct {
 	countMis vk.Counter
 	outMu    sync.Mutex
 	out      map[string]int
+	famStat  map[string]*[3]int64 // nodes, full level batteries, queries
+}
+
+func (e *explorer) stat(f string, nodes, full, q int) {
+	e.outMu.Lock()
+	st := e.famStat[f]
+	if st == nil {
+		st = &[3]int64{}
+		e.famStat[f] = st
+	}
+	st[0] += int64(nodes)
+	st[1] += int64(full)
+	st[2] += int64(q)
+	e.outMu.Unlock()
 }
 
 // runSeq executes seq on a fresh real stack and on the model, then runs the
@@ -283,6 +297,7 @@ func (e *explorer) runSeq(en *env, c *stackCase, seq []int, forceFull bool, out 
 	b := &battery{s: s, m: m, sc: sc, fullLv: fullLv, out: out}
 	b.run()
 	e.fullB.Add(b.nfull)
+	e.stat(c.fam.Name, 1, b.nfull, b.nq)
 	e.queries.Add(b.nq)
 	for _, f := range b.fails {
 		if strings.HasPrefix(f.Cat, "panic") {
@@ -359,7 +374,7 @@ func TestCheck(t *testing.T) {
 		defer pprof.StopCPUProfile()
 	}
 	e := &explorer{r: r, co: &collector{best: map[string]*caseRec{}, count: map[string]int64{}, reported: map[string]bool{}},
-		states: vk.NewSet(), levels: vk.NewSet(), out: map[string]int{}, envs: make(chan *env, r.Workers())}
+		states: vk.NewSet(), levels: vk.NewSet(), famStat: map[string]*[3]int64{}, out: map[string]int{}, envs: make(chan *env, r.Workers())}
 	for i := 0; i < r.Workers(); i++ {
 		e.envs <- newEnv()
 	}
@@ -435,8 +450,16 @@ func TestCheck(t *testing.T) {
 				nops = len(c.ops)
 			}
 		}
-		famDesc = append(famDesc, fmt.Sprintf("%s: shapes %v x backends %v x %d scenarios, %d keys, %d values, <=%d ops, all sequences of length <= %d (completed to %d)",
-			f.Name, f.Shapes, f.Backends, len(buildScenarios(f.NKeys)), f.NKeys, f.NVals, nops, f.Depth, depthDone[f.Name]))
+		nsc := len(f.Scens)
+		if f.Scens == nil {
+			nsc = len(buildScenarios(f.NKeys))
+		}
+		st := e.famStat[f.Name]
+		if st == nil {
+			st = &[3]int64{}
+		}
+		famDesc = append(famDesc, fmt.Sprintf("%s: shapes %v x backends %v x %d scenarios, %d keys, %d values, <=%d ops, all sequences of length <= %d (completed to %d): %d sequences run, %d full level batteries, %d queries",
+			f.Name, f.Shapes, f.Backends, nsc, f.NKeys, f.NVals, nops, f.Depth, depthDone[f.Name], st[0], st[1], st[2]))
 	}
 	var scDesc []string
 	for _, sc := range buildScenarios(4) {
@@ -492,7 +515,7 @@ func replay(r *vk.Run) {
 		r.Finish(map[string]any{"states": 1, "transitions": 1, "traces_validated_against_impl": 0}, nil)
 	}
 	sc := cases[0]
-	e := &explorer{r: r, co: &collector{best: map[string]*caseRec{}, count: map[string]int64{}, reported: map[string]bool{}}, states: vk.NewSet(), levels: vk.NewSet(), out: map[string]int{}}
+	e := &explorer{r: r, co: &collector{best: map[string]*caseRec{}, count: map[string]int64{}, reported: map[string]bool{}}, states: vk.NewSet(), levels: vk.NewSet(), famStat: map[string]*[3]int64{}, out: map[string]int{}}
 	seen := map[string]int{}
 	for i := 0; i < 5; i++ {
 		en := newEnv() // fresh database files every time
